@@ -1,11 +1,12 @@
 #!/usr/bin/env python3
-"""Evaluate every seeded patch under a directory against all 20 property checks (on scratch copies)."""
+"""Evaluate every seeded patch under a directory against all 20 property checks (on scratch copies).
+Environment: PROPS=C01,C06 restricts the properties, POOL=n the workers, OUT=file the result file (default <dir>/eval.json)."""
 import glob, importlib, json, multiprocessing, os, shutil, sys
 HERE = os.path.dirname(os.path.dirname(os.path.abspath(__file__)))
 sys.path.insert(0, os.path.join(HERE, 'engine', 'amqlint'))
 import core, facts, selftest_runner as SR  # noqa
 
-PROPS = ['C%02d' % i for i in range(1, 21)]
+PROPS = os.environ['PROPS'].split(',') if os.environ.get('PROPS') else ['C%02d' % i for i in range(1, 21)]
 
 
 def one(patch):
@@ -47,7 +48,7 @@ if __name__ == '__main__':
     root = sys.argv[1]
     patches = sorted(glob.glob(os.path.join(root, '*', '*', 'patch.diff')) + glob.glob(os.path.join(root, '*', 'patch.diff')))
     facts.ensure_driver()
-    with multiprocessing.Pool(8) as pool:
+    with multiprocessing.Pool(int(os.environ.get('POOL', '8'))) as pool:
         res = pool.map(one, patches)
     for r in res:
         rel = os.path.relpath(r['patch'], root)
@@ -55,4 +56,4 @@ if __name__ == '__main__':
         fired = r.get('fired', {})
         verdict = 'CAUGHT' if own in fired else ('caught-by-other' if fired else 'MISSED')
         print('%-22s %-16s %s' % (rel.replace('/patch.diff', ''), verdict if r['status'] == 'ok' else r['status'], {k: v[:2] for k, v in fired.items()}))
-    json.dump(res, open(os.path.join(root, 'eval.json'), 'w'), indent=1)
+    json.dump(res, open(os.environ.get('OUT') or os.path.join(root, 'eval.json'), 'w'), indent=1)
